@@ -30,10 +30,10 @@ func init() {
 		Text: "the constructors of MemFS, OrefaFS and MemIdm select the error table from the object's own OSType() after SetOSType, and set the Windows defaults (volumes, modes, separator-dependent working directory) only under an OSType()==OsWindows test on the object",
 		Run:  c17Ctor})
 	register(&Rule{ID: "C17.hostfree", Floor: 150,
-		Text: "outside vfs_ostype_off.go (the untagged host pass-through), osfs/osidm and the host detection itself, no function of the emulation refers to a host-dependent path facility (path/filepath functions or Separator, os.PathSeparator, os.IsPathSeparator, runtime.GOOS, os.Getwd/TempDir); host-independent sentinel values (SkipDir, SkipAll, ErrBadPattern) are allowed",
-		Also: []string{"C13", "C10", "C09", "C12"},
+		Text:     "outside vfs_ostype_off.go (the untagged host pass-through), osfs/osidm and the host detection itself, no function of the emulation refers to a host-dependent path facility (path/filepath functions or Separator, os.PathSeparator, os.IsPathSeparator, runtime.GOOS, os.Getwd/TempDir); host-independent sentinel values (SkipDir, SkipAll, ErrBadPattern) are allowed",
+		Also:     []string{"C13", "C10", "C09", "C12"},
 		AlsoOnly: map[string][]string{"C09": {"rofs."}, "C12": {"failfs."}}, AlsoFloor: map[string]int{"C09": 20, "C12": 20},
-		Run:  c17HostFree})
+		Run: c17HostFree})
 }
 
 // constOfCall: the static callee returns the same constant on every path.
